@@ -64,6 +64,7 @@ func runSmall(c *core.Ctx) []core.Obligation {
 	smallNilKeyEmptyString(c, b)
 	smallEmptyInterface(c, b)
 	smallNilScalarHasNoSize(c, b)
+	smallNumberFromString(c, b)
 	smallStringOptionNull(c, b)
 	smallStringOptionMarshaler(c, b)
 	return b.out
@@ -982,6 +983,38 @@ func smallRawVarintByte(c *core.Ctx, b *ob) {
 	}
 	if n == 0 {
 		b.addP(props, core.Discharged, "raw-varint-byte:none", "proto", "no integer is written as a raw byte outside encodeVarint: every length and tag goes through the varint encoder")
+	}
+}
+
+// S39 — json.Number is a string type: encoding/json decodes a JSON string into it when the string
+// holds a valid number literal (and rejects it otherwise), besides number literals. The decoder
+// of Number targets needs a string arm (it unquotes the value) next to the number arm.
+func smallNumberFromString(c *core.Ctx, b *ob) {
+	props := []string{"C02"}
+	key := "number-target:string-literal-arm"
+	fn := c.Lookup("json.(decoder).decodeNumber")
+	if fn == nil {
+		b.addP(props, core.Undecided, key, "-", "json.(decoder).decodeNumber not found")
+		return
+	}
+	unquotes, parses := false, false
+	for _, ci := range callsIn(fn) {
+		if f := staticCallee(ci.Common()); f != nil {
+			switch f.Name() {
+			case "parseStringUnquote", "parseString", "decodeString":
+				unquotes = true
+			case "parseNumber":
+				parses = true
+			}
+		}
+	}
+	switch {
+	case !parses:
+		b.addP(props, core.Undecided, key, c.FuncPos(fn), "decodeNumber does not call parseNumber")
+	case !unquotes:
+		b.addP(props, core.Violation, key, c.FuncPos(fn), "decodeNumber only accepts number literals: Unmarshal(`\"123\"`, new(json.Number)) fails where encoding/json stores Number(\"123\") (a JSON string holding a valid number is accepted for Number targets)")
+	default:
+		b.addP(props, core.Discharged, key, c.FuncPos(fn), "number literals and strings holding a number are both decoded")
 	}
 }
 
